@@ -260,7 +260,12 @@ func runM1(c *verdict.Ctx, tmp string) {
 	for i := 0; i < 24; i++ { // the fail points of two heights (WAL-affecting ones included)
 		plans = append(plans, fmt.Sprintf("fail:%d", i))
 	}
-	c.Set("m1_census", map[string]int{"signer_calls": nPV, "sign_state_tempfile_points": nTemp, "wal_fsyncs": nSync, "fail_points_tried": 24})
+	// syscall-level crash points (strace fault injection): the process is killed on entering the n-th
+	// rename / unlink / fsync, i.e. between any two file-system steps of the sign-state replacement and the WAL sync
+	for i := 1; i <= 12; i++ {
+		plans = append(plans, fmt.Sprintf("sys:rename,renameat,renameat2:%d", i), fmt.Sprintf("sys:unlink,unlinkat:%d", i), fmt.Sprintf("sys:fsync,fdatasync:%d", i))
+	}
+	c.Set("m1_census", map[string]int{"signer_calls": nPV, "sign_state_tempfile_points": nTemp, "wal_fsyncs": nSync, "fail_points_tried": 24, "syscall_points_tried": 36})
 	c.Set("m1_first_level_crash_points_enumerated", len(plans))
 	// every first-level point is combined with several WAL tail treatments; thorough adds more repetitions
 	reps := c.N(2, 12)
@@ -327,8 +332,8 @@ func runPlanM1(c *verdict.Ctx, r *crash.Runner, template string, k int, first st
 				lvl = "recovery"
 			}
 			name := kind[0]
-			if kind[0] == "point" && len(kind) > 1 {
-				name = kind[1]
+			if (kind[0] == "point" || kind[0] == "sys") && len(kind) > 1 {
+				name = kind[0] + "." + strings.SplitN(kind[1], ",", 2)[0]
 			}
 			c.Count("m1.crash_reached."+lvl+"."+name, 1)
 			if inc.WALAfter < inc.WALBefore {
